@@ -10,4 +10,13 @@ McKinds2 == {"call", "delegatecall", "staticcall"}
 McSlots2 == {"s1", "s2"}
 McInitStor2 == [c \in McContracts |-> [s \in McSlots2 |-> IF c = "A" /\ s = "s1" THEN 2 ELSE IF c = "B" /\ s = "s2" THEN 1 ELSE 0]]
 McCall == {"call"}
+\* creation frames: the address B would create holds funds in the parent block (its creations collide)
+McKindsC == {"call", "create"}
+McKindsC3 == {"call", "delegatecall", "staticcall", "create"}
+McKinds5 == McKinds \cup {"create"}
+McInitBalC == [a \in McContracts \cup {"U", "nB"} |-> IF a = "U" THEN 100 ELSE IF a = "A" THEN 3 ELSE IF a = "B" THEN 2 ELSE 1]
+McOne == {"A"}
+McInitBal1 == [a \in {"U", "A"} |-> IF a = "U" THEN 100 ELSE 3]
+McInitBal1C == [a \in {"U", "A", "nA"} |-> IF a = "U" THEN 100 ELSE IF a = "A" THEN 3 ELSE 1]
+McInitStor1 == [c \in McOne |-> [s \in McSlots |-> 0]]
 ====
